@@ -383,6 +383,14 @@ def explore_case(hmod, case, opts):
                 res["inconclusive"].append(f"{type(e).__name__}: {e} @ {' < '.join(reversed(where))}")
                 res["paths"] += 1
                 CTX.active = False
+                # obligations that already failed on this path are counterexample candidates in their own right (they
+                # are replayed on the unmodified code before anything is reported)
+                for lbl, inputs in env.violations:
+                    if lbl in seen_viol and len(res["violations"]) >= 8:
+                        continue
+                    seen_viol.add(lbl)
+                    res["violations"].append({"label": lbl, "inputs": inputs, "notes": env.notes[-2:],
+                                              "sig": _outcome_sig(env.trace, "ok")})
                 if len(res["inconclusive"]) > 20:
                     break
                 continue
